@@ -607,8 +607,9 @@ def migrateTo16 (d0 : YVal) : M YVal :=
       | .ok d1 =>
         let s := fieldVal .int r.v kStatisticsInterval
         if s.ok then
-          match (if intOf s.v = 0 then setK v16Stats kEnabled (.bool false)
-                 else setK v16Stats kInterval s.v) with
+          -- `if statsIvl == 0 { stats["enabled"] = false } else { stats["interval"] = statsIvl }`
+          match setK v16Stats (if intOf s.v = 0 then kEnabled else kInterval)
+              (if intOf s.v = 0 then .bool false else s.v) with
           | .error f => .error f
           | .ok stats' =>
             .ok (putK (putK d1 kStatistics stats') kDns (delK r.v kStatisticsInterval))
@@ -960,8 +961,17 @@ inductive Outcome
   | oracle
   deriving Repr
 
-/-- `Migrate(body, target)`, where `parsed` is `yaml.Unmarshal(body, &yobj{})`. -/
-def migrate (o : Oracles) (parsed : Option YVal) (target : Nat) : Outcome :=
+/-- How `Migrate` reports the result of `upgradeConfigSchema`. -/
+def upgradeOutcome (r : Except (Fault × Nat) YVal) : Outcome :=
+  match r with
+  | .error (.err k, s) => .err k s
+  | .error (.panic p, s) => .panic p s
+  | .error (.oracle, _) => .oracle
+  | .ok d => .up d
+
+/-- `Migrate(body, target)` up to (not including) the encoding, where `parsed` is
+`yaml.Unmarshal(body, &yobj{})`; `.up d` carries the in-memory document. -/
+def migrateMem (o : Oracles) (parsed : Option YVal) (target : Nat) : Outcome :=
   match parsed with
   | none => .err .parse 0
   | some doc0 =>
@@ -976,13 +986,32 @@ def migrate (o : Oracles) (parsed : Option YVal) (target : Nat) : Outcome :=
     else if target > lastSchemaVersion then .err .verTarget 0
     else if cur.toNat = target then .same
     else
-      match upgrade o (target - cur.toNat) cur.toNat doc with
-      | .error (.err k, s) => .err k s
-      | .error (.panic p, s) => .panic p s
-      | .error (.oracle, _) => .oracle
-      | .ok d =>
-        match reparse o d with
-        | some d' => .up d'
-        | none => .oracle
+      upgradeOutcome (upgrade o (target - cur.toNat) cur.toNat doc)
+
+/-- `Migrate(body, target)` as the harness observes it: the upgraded body decoded again. -/
+def migrate (o : Oracles) (parsed : Option YVal) (target : Nat) : Outcome :=
+  match migrateMem o parsed target with
+  | .up d =>
+    match reparse o d with
+    | some d' => .up d'
+    | none => .oracle
+  | r => r
+
+/-- The three results of `Migrate`. -/
+structure Ret (β : Type) where
+  body : β
+  upgraded : Bool
+  err : Option (ErrK × Nat)
+
+/-- `Migrate` on file contents of an abstract type `β` with the YAML codec as
+parameters: every `return` statement of the wrapper.  `none`: panic / missing oracle. -/
+def migrateBody {β : Type} (o : Oracles) (decode : β → Option YVal) (encode : YVal → β)
+    (body : β) (target : Nat) : Option (Ret β) :=
+  match migrateMem o (decode body) target with
+  | .err k s => some ⟨body, false, some (k, s)⟩
+  | .same => some ⟨body, false, none⟩
+  | .up d => some ⟨encode d, true, none⟩
+  | .panic _ _ => none
+  | .oracle => none
 
 end AGH.C13
